@@ -353,27 +353,28 @@ PROPS['C15'] = {
 PROPS['C12'] = {
     'title': 'Closest and interior points lie on the geometry',
     'level': 'proof',
-    'verus': ['c12_closest'],
+    'verus': ['c12_closest', 'c12_closest_of'],
     'twins': {'C12.V.best_of_two': r'^c12_k_best_of_two$', 'C12.V.point_closest_point': r'^c12_k_point_and_axis_line$', 'C12.V.line_closest_point': r'^c12_k_point_and_axis_line$'},
     'kani_extra': ['--no-memory-safety-checks', '--no-overflow-checks', '--no-assertion-reach-checks'],
     'kani': [
         ('geo', 'c12.rs', r'^c12_k_(best_of_two|point_and_axis_line)$', 'complete', 'quick'),
         ('geo', 'c12.rs', r'^c12_k_linestring_with_repeated_last_vertex$', 'bounded', 'quick'),
     ],
-    'trusted': ['Verus unit c12_closest: assumed contracts of Euclidean point-point distance / line length (zero exactly for coincident end points), of Line/Rect/Triangle intersects Point (proved separately in c02_intersects), of the generic fold closest_of; scalar division: only quotient < 0 iff numerator < 0 and quotient > 1 iff numerator > divisor (positive divisor) are assumed; exact-ring scalar whose values are ordered like integers',
+    'trusted': ['Verus unit c12_closest_of: `closest_of` verified at the instantiation I = &Vec<C> (X13: Verus cannot iterate over an abstract IntoIterator; the body is verbatim), for any number of parts and any part type with a closest_point contract; best_of_two twin (contract proved in c12_closest); abstract point-point distance',
+                'Verus unit c12_closest: assumed contracts of Euclidean point-point distance / line length (zero exactly for coincident end points), of Line/Rect/Triangle intersects Point (proved separately in c02_intersects), of the generic fold closest_of; scalar division: only quotient < 0 iff numerator < 0 and quotient > 1 iff numerator > divisor (positive divisor) are assumed; exact-ring scalar whose values are ordered like integers',
                 'f64::hypot modelled (exact on axis-parallel arguments), robust::orient2d stubbed by its assumed contract',
                 'complete only for the stated lattice: Closest variants x points on the x-axis in [-6,6]; Point and axis-parallel Line against every lattice query point in [-6,6]^2'],
     'undecided_clauses': [
         'interior_point (sweep-line based) is NOT under contract',
-        'closest_point for Polygon / Multi* / GeometryCollection (iterator chains; `closest_of` itself is a generic iterator loop outside Verus); for Rect / Triangle only the branch structure is proved (Intersection(p) exactly on the intersects branch) (harness c12_k_rect_intersection_iff_intersects is kept but times out at 600 s), slanted lines, distance minimality within tolerance',
+        'closest_point for Polygon / Multi* / GeometryCollection / LineString (the iterator chains that FEED `closest_of`; the fold `closest_of` itself is proved, at a Vec instantiation, in unit c12_closest_of); for Rect / Triangle only the branch structure is proved (Intersection(p) exactly on the intersects branch) (harness c12_k_rect_intersection_iff_intersects is kept but times out at 600 s), slanted lines, distance minimality within tolerance',
     ],
 }
 
 PROPS['C07'] = {
     'title': 'Euclidean distance is the true minimum distance',
     'level': 'proof',
-    'verus': ['c07_branches', 'c07_segment'],
-    'twins': {'C07.V.line_segment_distance': r'^c07_k_(point_point_row|point_axis_line|line_string_contains_point_axis)'},
+    'verus': ['c07_branches', 'c07_segment', 'c07_lines'],
+    'twins': {'C07.V.line_segment_distance': r'^c07_k_(point_point_row|point_axis_line|line_string_contains_point_axis)', 'C07.V.line_line_distance': r'^c07_k_line_linestring_last_vertex$'},
     'kani_extra': ['--no-memory-safety-checks', '--no-overflow-checks', '--no-assertion-reach-checks'],
     'kani': [
         ('geo', 'c07.rs', r'^c07_k_(point_point_row|line_string_contains_point_axis)$', 'bounded', 'quick'),
@@ -381,7 +382,8 @@ PROPS['C07'] = {
         ('geo', 'c02.rs', r'^c02_k_(line_coord|line_line)$', 'complete', 'quick'),
         ('geo', 'c07.rs', r'^c07_k_point_axis_line$', 'bounded', 'thorough'),
     ],
-    'trusted': ['Verus unit c07_segment: exact ring scalar; hypot abstract (a function of its arguments); of a quotient only its position relative to 0 and 1 is assumed (positive divisor)',
+    'trusted': ['Verus unit c07_lines: branch structure of Line x Line (0 when the segments intersect, else the minimum over all four end-point-to-segment distances), LineString x LineString (0 / nearest-neighbour distance) and LineString x Polygon (0 / minimum over ALL hole rings when the first vertex is strictly inside the shell of a polygon with holes / distance to the shell; precondition: non-empty line string, the FIXME of the source) with the leaf kernels abstract: the intersects impls, point-to-segment distance (unit c07_segment), ring_contains_coord, nearest_neighbour_distance (R-tree), scalar min / max_value; twins of Line::start_point / end_point',
+                'Verus unit c07_segment: exact ring scalar; hypot abstract (a function of its arguments); of a quotient only its position relative to 0 and 1 is assumed (positive divisor)',
                 'Verus unit c07_branches: which candidate set Polygon x Polygon distance minimises over (0 when they intersect; the hole rings when one operand sits inside the other\'s shell -- both mirror images; shell to shell otherwise) for any number of holes, with the leaf kernels (intersects, strictly-inside-ring, ring-to-ring nearest-neighbour distance, scalar min / max_value) abstract',
                 'very partial otherwise: exact distance, zero-iff-equal and operand-order / typing invariance for points on one lattice row (quick) and point x axis-parallel segment (thorough), with f64::hypot modelled exactly on axis-parallel arguments',
                 'the "exactly zero precisely when the geometries intersect" clause rests on the `intersects` early-outs of the distance impls: the segment kernels they call (Line x Coord, Line x Line) are decided completely on the lattice by the C02 harnesses listed here'],
